@@ -77,7 +77,9 @@ func (st *MouseState) Decode(code, col, row int, release bool, w, h int) MouseEx
 	switch {
 	case release:
 		e.Buttons = tcell.ButtonNone
-		if !e.ButtonsAny {
+		if wheel {
+			// a release final on a wheel code: no button went up
+		} else if !e.ButtonsAny {
 			// the SGR release names the button that went up; the others stay held
 			if low < 3 {
 				st.Held[low] = false
